@@ -271,7 +271,11 @@ def run_atoms(case, ctx):
             e = relerr(sigs[i].state, vals[i])
             require(e <= 1e-12, "forward-state-differs-from-interpreter", signal=i, err=e)
         outs = [i for i in range(P["nsrc"], P["nsig"]) if rng.random() < 0.35] or [P["nsig"] - 1]
-        w = {i: rng.standard_normal(P["sizes"][i]) for i in outs}
+        # seeds of any magnitude (an objective in nm, a weight of 1e-10): back-propagation is homogeneous in the seed
+        wscale = 10.0 ** rng.uniform(-12, 6) if rng.random() < 0.3 else 1.0
+        if wscale != 1.0:
+            ctx.count("programs_with_scaled_seeds")
+        w = {i: rng.standard_normal(P["sizes"][i]) * wscale for i in outs}
         for i, wi in w.items():
             sigs[i].sensitivity = wi.copy()
         net.sensitivity()
@@ -297,9 +301,9 @@ def run_atoms(case, ctx):
         _, tans = interp(P, x0, v)
         exact = sum(float(w[i] @ tans[i]) for i in outs)
         an = sum(0.0 if g[k] is None else float(np.asarray(g[k]) @ v[k]) for k in range(P["nsrc"]))
-        err = abs(exact - an) / max(1.0, abs(exact), abs(an))
+        err = abs(exact - an) / max(wscale, abs(exact), abs(an))
         worst = max(worst, err)
-        tot = max(tot, abs(exact))
+        tot = max(tot, abs(exact) / wscale)
         if not err <= 1e-9:
             raise Violation("total-derivative-mismatch/atoms", exact=exact, backprop=an, err=err,
                             kinds=[n["kind"] for n in P["prog"]], nslices=P["nslices"], nested=nested, seeded=outs)
